@@ -33,6 +33,15 @@ fn c02_delivered_heights_small_chains() {
                 Ok(got) => { check(got == want, suite, "C02:delivered_heights_inclusive", &inp, &format!("{:?}", got.iter().map(ev).collect::<Vec<_>>()), &format!("{:?}", want.iter().map(ev).collect::<Vec<_>>())); }
                 Err(m) => fail(suite, "C02:delivered_heights_inclusive", &inp, &m, "Ok"),
             }
+            // --verify does not change which heights are delivered (height 0 of these synthetic chains is not the coin's
+            // genesis, so only starts >= 1; a failing run would end the process: fetch every height instead of driving)
+            if s >= 1 {
+                cases += 1;
+                let hs: Vec<u64> = (s..=last).collect();
+                let r = fetch(d.path(), "bitcoin", s, e, true, &hs);
+                let ok = matches!(&r, Ok(v) if v.iter().zip(hs.iter()).all(|(x, h)| matches!(x, Ok(Some(hh)) if *hh == chain[*h as usize].hash())));
+                check(ok, suite, "C02:delivered_heights_inclusive", &format!("{} --verify", inp), &format!("{:?}", r.as_ref().map(|v| v.iter().map(|x| x.as_ref().map(|o| o.is_some()).map_err(|e| e.clone())).collect::<Vec<_>>())), "every height of the range delivered");
+            }
         }
     }
     finish(suite, cases);
@@ -160,6 +169,42 @@ fn c09_failed_run_exit_status_and_no_final_output() {
                 check(finals.is_empty(), suite, "C09:failed_verify_run_leaves_no_final_named_output", &inp, &format!("files {:?}", names), "no final-named csv file");
             }
         }
+    }
+    finish(suite, cases);
+}
+
+/// C02 (bounded: one chain of 40 blocks x 25 OP_RETURN outputs of 60 bytes, about 160 KiB of output; 3 ranges): opreturn
+/// prints every line of the range exactly once, in ascending height order, and a range prints the slice of the whole run
+#[test]
+fn c02_opreturn_long_run_prints_each_line_once() {
+    use crate::callbacks::opreturn::OpReturn;
+    let suite = "c02_opreturn_long_run_prints_each_line_once";
+    let mut k = 0u32;
+    let chain = make_chain(41, &mut |h| if h == 0 { vec![] } else {
+        vec![TxSpec::new(vec![TxIn::new([h as u8; 32], 0, vec![0x51])], (0..25).map(|i| { k += 1; let mut p = format!("h{:03}o{:02}-{:06}-", h, i, k).into_bytes(); p.resize(60, b'x'); let mut sc = vec![0x6a, 60u8]; sc.extend(p); TxOut::new(0, sc) }).collect())] });
+    let d = simple_dir(&chain); d.write();
+    let mut cases = 0;
+    let lines_of = |s: u64, e: Option<u64>| -> std::result::Result<Vec<String>, String> {
+        let last = e.unwrap_or(40).min(40);
+        let blocks = fetch_blocks(d.path(), "litecoin", s, last, false)?;
+        let text = capture_stdout(|| { let mut cb = OpReturn::new(&OpReturn::build_subcommand().get_matches_from(vec!["opreturn"])).unwrap();
+            cb.on_start(s).unwrap(); for (i, b) in blocks.iter().enumerate() { cb.on_block(b, s + i as u64).unwrap(); } cb.on_complete(last).unwrap(); drop(cb); });
+        Ok(text.lines().filter(|l| l.starts_with("height: ") && l.contains("    data: h")).map(|l| l.to_string()).collect())
+    };
+    let whole = match lines_of(0, None) { Ok(v) => v, Err(m) => { fail(suite, "C02:run_completes", "whole chain", &m, "Ok"); finish(suite, 1); return; } };
+    cases += 1;
+    let want: Vec<String> = (1..=40u64).flat_map(|h| { let t = &chain[h as usize].txs[1]; let id = hex_rev(&t.txid());
+        t.outputs.iter().map(move |o| format!("height: {: <9} txid: {}    data: {}", h, id, String::from_utf8_lossy(&o.script[2..]))).collect::<Vec<_>>() }).collect();
+    if whole != want {
+        let i = (0..whole.len().max(want.len())).find(|i| whole.get(*i) != want.get(*i)).unwrap_or(0);
+        fail(suite, "C02:each_block_exactly_once_in_ascending_order", &format!("opreturn over heights 0..=40 ({} lines printed, {} expected), first difference at line {}", whole.len(), want.len(), i), &format!("{:?}", whole.get(i).map(|s| &s[..s.len().min(60)])), &format!("{:?}", want.get(i).map(|s| &s[..s.len().min(60)])));
+    }
+    for (s, e) in [(5u64, Some(20u64)), (30, None), (17, Some(18))] {
+        cases += 1;
+        let last = e.unwrap_or(40);
+        let got = lines_of(s, e).unwrap_or_else(|m| vec![format!("ERR {}", m)]);
+        let slice: Vec<String> = want.iter().filter(|l| { let h: u64 = l[8..17].trim().parse().unwrap(); h >= s && h <= last }).cloned().collect();
+        check(got == slice, suite, "C02:range_result_is_the_slice_of_the_whole_chain_result", &format!("opreturn range {}..{:?}", s, e), &format!("{} lines", got.len()), &format!("{} lines", slice.len()));
     }
     finish(suite, cases);
 }
